@@ -1648,8 +1648,9 @@ func (c *compiler) VisitTernaryExpr(e *ast.TernaryExpr) ast.VisitResult {
 		falseBlock = c.cbb
 
 		// simple case, where both can be treated the same way
-		if lhsIsTemp == rhsIsTemp {
-			c.latestIsTemp = lhsIsTemp
+		// (primitive values are never copied, whatever the temporary flag of their expression says)
+		if lhsIsTemp == rhsIsTemp || lhsTyp.IsPrimitive() {
+			c.latestIsTemp = lhsIsTemp && rhsIsTemp
 		} else {
 			c.latestIsTemp = true
 
